@@ -72,6 +72,11 @@ def _run(F, rep, tier):
             pc = path_of(c[1]) or ""
             if pc.startswith("Self::") or pc.startswith("Formatter::"):
                 st_.append(pc.split("::")[-1])
+        # calls written inside the arguments of format!(..) are token text in the expanded tree
+        for mc in find(by_name[x]["body"], "macro"):
+            for raw in mc[2:4]:
+                if isinstance(raw, str):
+                    st_.extend(re.findall(r"\bself\s*\.\s*(\w+)\s*\(", raw))
     rep.floor("C08-R2", "emitters reachable from format()", len(reach), 100)
     # R1 / R2
     n1 = n2 = 0
